@@ -37,6 +37,8 @@ V("C03", "merge without species filter", "R03.4", (SBC, "final_indices = set(tar
 V("C03", "species-blind matching", "R03.1", (GEO, "                if closest_atomic_number == atomic_number:\n                    match = closest_index\n                    substitution = None\n                else:\n", "                match = closest_index\n                if closest_atomic_number != atomic_number:\n"))
 V("C03", "twin: >= in the running maximum", "silent", (SBC, "                    if n_near > max_near:", "                    if n_near >= max_near:"))
 # ------------------------------------------------------------------------------------------ C04
+V("C04", "corner origin + c computed with basis[1] (D20 regression)", "R04.11", (GEO, "    max_c = origin + basis[2, :]\n", "    max_c = origin + basis[1, :]\n"))
+V("C04", "image range of axis c ends at the maximum of axis b", "R04.11", (GEO, "c_range = range(min_factors[2], max_factors[2] + 1)", "c_range = range(min_factors[2], max_factors[1] + 1)"))
 V("C04", "periodic-vector counter used as cell-axis number (D19 regression)", "R04.10", (PFD, "i_factor[periodic_axes[i_per_span]] = 1", "i_factor[i_per_span] = 1"))
 V("C04", "empty copy list reaches the averaging (D16 regression)", "R04.3", (PFD, "            if len(scaled_pos) != 0 and len(scaled_pos) >= 1 / 3 * max_occurrence:", "            if len(scaled_pos) >= 1 / 3 * max_occurrence:"))
 V("C04", "3D builder averages the wrapped copies without unwrapping", "R04.3", (PFD, "                final_pos = scaled_pos - displacement\n", "                final_pos = scaled_pos\n"))
